@@ -16,6 +16,7 @@ import (
 	"time"
 
 	"github.com/ory/keto/ketoapi"
+	rts "github.com/ory/keto/proto/ory/keto/relation_tuples/v1alpha2"
 	"github.com/ory/keto/verif/apih"
 	"github.com/ory/keto/verif/ev"
 	"github.com/ory/keto/verif/sqlfault"
@@ -34,6 +35,15 @@ func TestC14API(t *testing.T) {
 	c.Create(axSet("n1", "doc", "r", "n1", "grp", "m"))
 	c.Create(axID("n1", "grp", "m", "member"))
 	c.Create(axID("n1", "other", "r", "user0"))
+	// a node whose listing needs more than one page of the name lookup (100 ids per lookup page)
+	var big []*rts.RelationTupleDelta
+	for i := 0; i < 150; i++ {
+		big = append(big, axDelta(rts.RelationTupleDelta_ACTION_INSERT, axID("n1", "big", "r", fmt.Sprintf("big-user-%03d", i))))
+	}
+	if _, err := c.GTransact(big); err != nil {
+		fmt.Printf("INFRA-ERROR C14 api: seeding: %v\n", err)
+		t.FailNow()
+	}
 	s.Settle()
 
 	q := &ketoapi.RelationQuery{Namespace: axS("n1"), Object: axS("doc")}
@@ -90,6 +100,8 @@ func TestC14API(t *testing.T) {
 		{"grpc list doc size=2 page 1", grpcPage(q, 2, tokens[0])},
 		{"grpc list doc size=2 page 2", grpcPage(q, 2, tokens[1])},
 		{"grpc list doc size=3 page 1", grpcPage(q, 3, "")},
+		{"rest list big size=200", restPage(&ketoapi.RelationQuery{Namespace: axS("n1"), Object: axS("big")}, "200", "")},
+		{"grpc list big size=200", grpcPage(&ketoapi.RelationQuery{Namespace: axS("n1"), Object: axS("big")}, 200, "")},
 		{"rest check doc#r@user1", func() string { return string(c.CheckGET(axID("n1", "doc", "r", "user1"), true, "").Raw) }},
 		{"rest check doc#r@member", func() string { return string(c.CheckGET(axID("n1", "doc", "r", "member"), true, "").Raw) }},
 		{"rest check doc#r@member depth=1", func() string { return string(c.CheckGET(axID("n1", "doc", "r", "member"), true, "1").Raw) }},
@@ -115,9 +127,21 @@ func TestC14API(t *testing.T) {
 		alone[i] = r.do()
 		s.Settle()
 		stmts[i] = int(s.Tap.Count())
-		if again := r.do(); again != alone[i] {
-			fmt.Printf("INFRA-ERROR C14 api: request %q is not deterministic alone: %q / %q\n", r.name, alone[i], again)
-			t.FailNow()
+		// the same request once more, nothing else running, data unchanged: state kept for the first request must
+		// not change the answer of the second (three attempts: a harness hiccup would not repeat)
+		diff := ""
+		for attempt := 0; attempt < 3; attempt++ {
+			if again := r.do(); again != alone[i] {
+				diff = again
+			} else {
+				diff = ""
+				break
+			}
+		}
+		if diff != "" {
+			run.Violation("api-answer-depends-on-earlier-request:"+strings.Join(strings.Fields(r.name)[:2], "-"), fmt.Sprintf("request %q on unchanging data, nothing else running: first answer %.300s; repeated: %.300s", r.name, alone[i], diff), map[string]any{"phase": "api-repeat", "request": r.name})
+			run.FinishPart(map[string]any{"api_requests": len(reqs), "api_pairs_exhaustive": false})
+			return
 		}
 	}
 	deadline := ev.Deadline(120, 600)
@@ -182,10 +206,10 @@ func TestC14API(t *testing.T) {
 		}
 	}
 	run.FinishPart(map[string]any{
-		"api_request_pairs":            pairs,
-		"api_pause_points":             points,
-		"api_second_request_waited":    blocked,
-		"api_requests":                 len(reqs),
-		"api_pairs_exhaustive":         complete,
+		"api_request_pairs":         pairs,
+		"api_pause_points":          points,
+		"api_second_request_waited": blocked,
+		"api_requests":              len(reqs),
+		"api_pairs_exhaustive":      complete,
 	})
 }
